@@ -69,6 +69,45 @@ def resolveInstruction (st : Static) (defs : Defs) (ctx : RCtx) (ref : Nat) : It
           else .ok (defs', true, reported)
       | none => .ok (defs, false, reported)
 
+/-- `expect_error_or_bigint` of a data element's value (`must` = the value has to be known now) -/
+def dataEnc (must : Bool) (v : Value) : Except String (Option BI) :=
+  match v with
+  | .int b => .ok (some b)
+  | .str s en => .ok (some (strToBigint s en))
+  | .unknown => if must then .error "failed to resolve data element" else .ok none
+  | .failed msg => if must then .error msg else .ok none
+  | _ => .error "expected integer"
+
+/-- the range / definite-size check of a data element -/
+def dataCheck (must : Bool) (elemSize : Option Nat) (enc : Option BI) : Except String Unit :=
+  if must then
+    match enc with
+    | some b =>
+      match elemSize with
+      | some n => if b.sizeOrMin > n then .error "value out of range for directive" else .ok ()
+      | none => if b.size.isNone then .error "data element has no definite size" else .ok ()
+    | none => .error "panic: unwrap on None"
+  else .ok ()
+
+def dataSlice (elemSize : Option Nat) (b : BI) : BI :=
+  match elemSize with
+  | some n => b.slice n 0
+  | none => b.slice b.sizeOrMin 0
+
+/-- storing the sliced value and comparing it with the previous one -/
+def dataStore (st : Static) (defs : Defs) (ctx : RCtx) (ref : Nat) (sliced : Option BI) : ItemRes :=
+  let d := defs.datas.getD ref default
+  match sliced with
+  | some b =>
+    if st.opts.optStatic && ctx.first && d.known && b.size.isSome then
+      .ok ({ defs with datas := defs.datas.set ref { d with encoding := b, resolved := true } }, true, [])
+    else
+      let defs' := { defs with datas := defs.datas.set ref { d with encoding := b } }
+      if !(b.v == d.encoding.v && b.size == d.encoding.size) then
+        .ok (defs', false, if ctx.last then ["data element did not converge"] else [])
+      else .ok (defs', true, [])
+  | none => .ok (defs, false, if ctx.last then ["data element did not converge"] else [])
+
 /-- `resolve_data_element` -/
 def resolveData (st : Static) (defs : Defs) (ctx : RCtx) (ref : Nat) (elemSize : Option Nat) (e : Expr) : ItemRes :=
   let d := defs.datas.getD ref default
@@ -77,44 +116,12 @@ def resolveData (st : Static) (defs : Defs) (ctx : RCtx) (ref : Nat) (elemSize :
     | .error m => .error m
     | .ok (v, _) =>
       let must := ctx.last || d.known
-      -- `expect_error_or_bigint`
-      let enc : Except String (Option BI) :=
-        match v with
-        | .int b => .ok (some b)
-        | .str s en => .ok (some (strToBigint s en))
-        | .unknown => if must then .error "failed to resolve data element" else .ok none
-        | .failed msg => if must then .error msg else .ok none
-        | _ => .error "expected integer"
-      match enc with
+      match dataEnc must v with
       | .error m => .error m
       | .ok enc =>
-        let checked : Except String Unit :=
-          if must then
-            match enc with
-            | some b =>
-              match elemSize with
-              | some n => if b.sizeOrMin > n then .error "value out of range for directive" else .ok ()
-              | none => if b.size.isNone then .error "data element has no definite size" else .ok ()
-            | none => .error "panic: unwrap on None"
-          else .ok ()
-        match checked with
+        match dataCheck must elemSize enc with
         | .error m => .error m
-        | .ok _ =>
-          let sliced : Option BI := enc.map fun b =>
-            match elemSize with
-            | some n => b.slice n 0
-            | none => b.slice b.sizeOrMin 0
-          let prev := d.encoding
-          match sliced with
-          | some b =>
-            if st.opts.optStatic && ctx.first && d.known && b.size.isSome then
-              .ok ({ defs with datas := defs.datas.set ref { d with encoding := b, resolved := true } }, true, [])
-            else
-              let defs' := { defs with datas := defs.datas.set ref { d with encoding := b } }
-              if !(b.v == prev.v && b.size == prev.size) then
-                .ok (defs', false, if ctx.last then ["data element did not converge"] else [])
-              else .ok (defs', true, [])
-          | none => .ok (defs, false, if ctx.last then ["data element did not converge"] else [])
+        | .ok _ => dataStore st defs ctx ref (enc.map (dataSlice elemSize))
 
 /-- `resolve_res` -/
 def resolveRes (st : Static) (defs : Defs) (ctx : RCtx) (ref : Nat) (e : Expr) : ItemRes :=
